@@ -663,7 +663,9 @@ func main() {
 			run.Sample(map[string]any{"scenario": o.Scenario, "bound": o.Bound, "history": o.Sample})
 		}
 	}
-	binding(run)
+	if os.Getenv("C16_AS_CORES") == "" {
+		binding(run)
+	}
 	// auxiliary: the same kinds of drivers free-running under the race detector (thorough tier)
 	if bin := os.Getenv("VERIF_RACE"); bin != "" {
 		cmd := exec.Command(bin, "--iters", "300")
